@@ -884,6 +884,10 @@ func handleMessage(peer *Peer, m protocol.Message) error {
 		c := toChunk(peer, m.Index, m.Begin)
 		q, r, tm := peer.requests.Del(c)
 		if r || q {
+			// we only ever request single chunks
+			if cs := chunkSize(peer, c); uint32(len(m.Data)) > cs {
+				m.Data = m.Data[:cs]
+			}
 			length := len(m.Data)
 			DownloadEstimator.Accumulate(length)
 			n, complete, err := peer.Pieces.AddData(
